@@ -233,6 +233,9 @@ def check_boot(V: Verdicts, prop, plan, run: Run, li: int, h: dict):
     if h.get("crash", {}).get("real_sigkill") and h["crash"]["seam"][0] == "construct":
         return  # really killed while booting: there is no boot outcome to judge
     C = model["committed"]
+    if prop == "C11" and model.get("high_water", 0) > (max(C) if C else 0):
+        V.bad(f"{prop}:completed_checkpoint_lost", f"lifetime {li}: the save of step {model['high_water']} had completed before the kill, but the newest restorable step is {max(C) if C else None}; listing={h['pre_listing']}")
+        return
     step = h.get("step_resolved")
     src = h["src"]
     got = run.boots[li]["state"] if not boot.get("fallback") else None
